@@ -41,6 +41,24 @@ CLAIMED.update({
  "C04": krill_claim(
   "Same model and binding as C01, roll-heavy behaviours: roll initiation/activation interleaved at single-task granularity with entitlement changes, suspension, ROA changes and syncs. Decides: every key in use has a certificate, staging key publishes manifest+CRL only, after activation products move to the new key in one publication (old key's products tracked separately until the next sync), activation is refused only in the two cases the spec predicts, and every settle ends in the single-active-key state or at rest in roll_new.",
   "§6 C04, §4.3"),
+ "C14": krill_claim(
+  "Same model and binding as C01, with the maintenance tasks (Republish, Renew) as actions whose effect depends on whether something is due. Due-ness is produced on the real code by restarting the instance with timing values whose margins exceed the lifetimes (everything due) and back (nothing due), never by changing code. Around every maintenance run TLC compares the serial-number level facts of every real key decoded from the repository: manifest and CRL number +1 exactly and the same objects (re-issue), every route origin object replaced by a new one with the published payloads unchanged (renewal), nothing at all changed when nothing is due. In every state of every trace: manifest and CRL numbers agree and never go down, validity windows contain the present, and what a CA's object store holds is published whenever no repository synchronisation is pending (operations while everything is due exercise re-issue as a side effect of commands).",
+  "§6 C14, §4.3"),
+ "C19": krill_claim(
+  "The status reports are variables of Krill.tla (per CA: outcome of the most recent parent exchange and entitlements last returned, outcome of the most recent repository exchange and whether the shown list of published objects is what the server holds; per child: the outcome its parent shows), assigned in the step of the exchange they report. TLC checks exhaustively (bounded) that after every successful repository synchronisation the shown list is the server's, also after the server's operator removed and re-created a publisher, and that removing a child or CA removes the entries. On the real code the reports (get_ca_status for every CA, compared with get_publisher_details as multisets of uri+content) are projected after every event of generated behaviours with failing exchanges (unknown publisher, removed child, nothing to offer), publisher removal/re-creation, bulk sync and restarts, and TLC validates them against the values the spec assigns; a restart must change nothing.",
+  "§6 C19, §4.3"),
+ "C17": {
+  "technique": "TLA+ model of RFC 6811 validation over an abstract prefix tree (spec/Rov.tla) checked with TLC; TLC-enumerated (ROA set, announcement set) cases embedded at concrete IPv4/IPv6 places and run through the real BgpAnalyser; TLC (RovTrace.tla) judges every report line",
+  "level": "model_checking",
+  "text": "Rov.tla defines covers/matches, the RFC 6811 state of an announcement with the reason for invalidity, per-ROA authorises/disallows sets and the constraints on suggestions. TLC enumerates every case of six bounded universes (up to 3 ROAs x 3 announcements on shallow trees, deeper trees with fewer entries; ROA = prefix x max length in {len..depth, family max} x AS in {0,1,2}) and checks the sanity theorems (states total and exclusive, per-ROA sets agree with states, stale ROAs never validate, AS0 never validates). Every case is run on the real BgpAnalyser (verif_load_announcements, analyse, suggest) under 7 held/scope restrictions at 8 embeddings (roots /0../32, leaves down to /32 and /128, duplicate lines, implicit max length, noise outside the root) and TLC judges state, reason, allowed_by/disallowed_by, each ROA's exact authorises/disallows set and the suggestions. Thorough is exhaustive over the universes, quick a seeded sample.",
+  "note": "Trusted: TLC, the embedding and its inverse, JSON transport. Assumed: announcement origin never AS0; valid max lengths; a ROA whose prefix is not held yields no VRP; validation is against all held VRPs even when a scope is given (the deviation of the code from this is known finding C17-scope-limit-drops-covering-roas); suggestions are read as: pure-removal lists contain no validating ROA and the net effect keeps every valid announcement valid.",
+  "ref": "§6 C17", "engines": ["TLC", "kv-vec"]},
+ "C05": {
+  "technique": "TLA+ model of configuration validation (spec/ConfigValidation.tla) checked with TLC; TLC-enumerated (CA state, request) cases run on a real CA; TLC (ConfigValidationTrace.tla) judges decision, unchanged-on-refusal and applied-on-acceptance",
+  "level": "model_checking",
+  "text": "ConfigValidation.tla states for ROA deltas, ASPA definition and provider updates, router-key updates and child add/update when a request is accepted and what the configuration is afterwards, with the theorems AllOrNothing, nothing unbacked created or re-asserted, accepted delta fully applied, normalisation. TLC enumerates CA state x request (ROA deltas of up to 2 added + 2 removed entries over held/unheld/overlapping/whole-block prefixes, v4/v6, max length implicit/=len/len+1/family max/max+1/len-1, AS0, comments, duplicates; ASPA and router-key updates incl. bad CSR signatures; 10 child resource sets; states with entries for resources lost since). Each case runs on a real CA through the CaManager entry points; TLC judges accept/refuse, that a refusal leaves configuration and stored object set unchanged (history +<=1), and that after acceptance the configuration equals the request applied sequentially and the published payloads decoded from the object set equal the held part of the configuration. Thorough is exhaustive over the universe, quick a seeded sample.",
+  "note": "Trusted: TLC; payload decoding with the rpki crate. Assumed: error text informative only; ROA 'same comment' judged against the pre-delta comment as the code does; ASPA provider updates lenient by design; 'repository' observed on the CA's stored object set, not on the publication server (C01 covers store -> server).",
+  "ref": "§6 C05", "engines": ["TLC", "kv-vec"]},
  "C13": {
   "technique": "TLA+ decision-table model (spec/Authz.tla) checked with TLC; TLC-enumerated request cases executed against the real daemon started in-process (Unix socket and TLS); TLC (AuthzTrace.tla) judges every recorded request",
   "level": "model_checking",
